@@ -54,3 +54,9 @@ CONFIG = {
         "the clock does not go backwards between issue and validation",
     ],
 }
+# statement-by-statement translation of small pure Go functions (tools/extract/trans.go -> lean/VGen/TransTokens.lean) and the
+# theorems that the translated definitions equal the model's, for all inputs (lean/VProps/TransTokens.lean)
+CONFIG["lean"] = list(CONFIG["lean"]) + ["VProps.TransTokens"]
+CONFIG["sources"] = list(CONFIG["sources"]) + ['VProps/TransTokens.lean', 'VModel/GoSem.lean']
+CONFIG["theorems"] = list(dict.fromkeys(list(CONFIG["theorems"]) + ['V.Trans.Tokens.atoi_eq', 'V.Trans.Tokens.verifyExpiry_eq_model', 'V.Trans.Tokens.verifyExpiry_true_iff']))
+CONFIG["trusted"] = list(CONFIG["trusted"]) + ["tools/extract/trans.go: the Go-to-Lean translation of the whitelisted functions and the Go semantics of lean/VModel/GoSem.lean (DESIGN.md §14)"]
